@@ -35,6 +35,25 @@ pub fn build<Q: QueueApi>(r: &Recipe) -> State<Q> {
     st
 }
 
+/// `build` under the per-operation monitors: a receiver that is already wrong before the
+/// behaviour under test starts is reported under the properties of what broke it, and the case
+/// built on it is skipped (nothing about iterators, serde or capacity can be judged on it).
+pub fn build_checked<Q: QueueApi>(r: &Recipe) -> Result<State<Q>, Viol> {
+    let mut st = State::<Q>::construct(&Ctor::New)?;
+    for &(id, ord) in &r.pushes {
+        st.exec(&Op::Push { id, ord })?;
+    }
+    for &id in &r.removes {
+        st.exec(&Op::Remove { id, k: false })?;
+    }
+    for &(id, ord) in &r.changes {
+        st.exec(&Op::Change { id, ord, k: true })?;
+    }
+    let universe: Vec<u32> = (0..(r.pushes.len() as u32 + 2).min(48)).collect();
+    st.post_check("build", &[], &universe, true)?;
+    Ok(st)
+}
+
 pub fn recipe(rng: &mut Rng, n: usize, nprio: i64) -> Recipe {
     // n elements left at the end, slots shuffled by removing some extra elements
     let extra = if n == 0 { rng.below(2) } else { rng.below(3) };
@@ -236,7 +255,7 @@ pub fn run_case<Q: QueueApi>(c: &Case, cn: &mut Counters) -> Vec<Viol> {
 
 fn run_case_inner<Q: QueueApi>(c: &Case, cn: &mut Counters) -> Result<(), Viol> {
     reset_episode();
-    let mut st = build::<Q>(&c.recipe);
+    let mut st = build_checked::<Q>(&c.recipe)?;
     let n = st.m.len();
     let kind = Q::KIND;
     let w = c.which;
@@ -462,7 +481,7 @@ fn run_case_inner<Q: QueueApi>(c: &Case, cn: &mut Counters) -> Result<(), Viol> 
             }
             // C08: every written priority is in force and the order is restored once the guard is gone
             let universe: Vec<u32> = (0..(n as u32 + 2)).collect();
-            st.post_check("iter_mut", &["C08", "C09"], &universe, true)?;
+            st.post_check("iter_mut", &["C08"], &universe, true)?;
             if !st.order_suspended {
                 st.exec(&Op::SortedCheck)?;
             }
@@ -515,12 +534,14 @@ fn after_emptied<Q: QueueApi>(mut st: State<Q>, c: &Case, cn: &mut Counters, how
     let universe: Vec<u32> = (0..8).collect();
     for op in &c.after {
         cn.twin_ops += 1;
+        // the fresh queue goes first: what goes wrong there too is not a matter of drain / clear
+        let b = fresh.exec(op)?;
+        fresh.post_check(op.name(), op.extra_props(), &universe, true)?;
         let a = st.exec(op).map_err(|mut v| {
             v.props.push("C16");
             v
         })?;
         st.post_check(op.name(), &["C16"], &universe, true)?;
-        let b = fresh.exec(op)?;
         if a != b {
             return Err(bad(format!("{:?} on the emptied queue returned {:?} but {:?} on a fresh queue", op, a, b)));
         }
@@ -648,6 +669,19 @@ pub fn consumer_probes<Q: QueueApi>(r: &Recipe, k: usize, cn: &mut Counters, sin
                     out.iter().map(|x| x.1).collect::<Vec<_>>() == expected.iter().map(|x| x.1).collect::<Vec<_>>() && ids.len() == l && out.iter().all(|x| reference.contains(x))
                 };
                 if !same {
+                    let mut props = props;
+                    if !exact_ids {
+                        // sorted iterator: the right number of distinct stored elements in the wrong
+                        // priority order is a matter of sorted consumption (C06) only, not of the
+                        // iterator protocol (C13)
+                        let mut ids: Vec<u32> = out.iter().map(|x| x.0).collect();
+                        ids.sort_unstable();
+                        let l = ids.len();
+                        ids.dedup();
+                        if ids.len() == l && l == expected.len() && out.iter().all(|x| reference.contains(x)) {
+                            props.retain(|p| *p != "C13");
+                        }
+                    }
                     let v = Viol { monitor: "M-CONSUMER", op: format!("{}.{}", label, cname), kind: kind.name(), detail: format!("{}.{} with k={} on {} elements yields {:?} but plain next() implies {:?}", label, cname, k, n, out, expected), props };
                     sink.viol(&v.props, &v.sig(), &v.detail, case);
                 }
@@ -750,6 +784,17 @@ fn exec_case<Q: QueueApi>(c: &Case, cn: &mut Counters) -> Vec<Viol> {
     run_case::<Q>(c, cn)
 }
 fn exec_adaptors<Q: QueueApi>(r: &Recipe, k: usize, cn: &mut Counters, sink: &mut Sink) {
+    match catch_unwind(AssertUnwindSafe(|| build_checked::<Q>(r).map(|_| ()))) {
+        Ok(Ok(())) => {}
+        Ok(Err(v)) => {
+            sink.viol(&v.props, &v.sig(), &v.detail, serde_json::json!({"mode":"iters","adaptor":0,"k":k,"kind":Q::KIND,"recipe":r,"precheck":true}));
+            return;
+        }
+        Err(_) => {
+            let _ = take_last_panic();
+            return;
+        }
+    }
     adaptor_probes::<Q>(r, k, cn, sink);
     consumer_probes::<Q>(r, k, cn, sink)
 }
